@@ -44,6 +44,8 @@ def run(rep, tier, seed, replay):
     built = [k for k in range(len(exprs)) if P.impl[k]["ok"]]
     pi = dict(zip(built, h.ask(["P " + P.hx[k] for k in built])))
     pm = dict(zip(built, m.ask(["P " + P.hx[k] for k in built])))
+    EMPTY_PATTERN = lib.parse_impl_build(h.ask(["B -"])[0])["pattern"]
+    TREE_PATTERN = lib.parse_impl_build(h.ask(["B " + hexs("**")])[0])["pattern"]
     findings, _ = common.load_findings("C08")
     finding_ids = {f["id"] for f in findings}
     jobs = []
@@ -54,6 +56,18 @@ def run(rep, tier, seed, replay):
         if a.startswith("panic"):
             rep.violation("oracle", "partition panics", {"expr": e}, impl=a)
             continue
+        # partition_or_empty / partition_or_tree: the same prefix, and the postfix or else the empty glob / `**`
+        fa = fields(a)
+        if "ore" in fa and "ort" in fa:
+            want_pre = fa.get("prefix", "?")
+            post_pat = fa.get("pattern")
+            exp_e = "%s/%s" % (want_pre, post_pat if fa.get("post") != "none" else hexs(EMPTY_PATTERN))
+            exp_t = "%s/%s" % (want_pre, post_pat if fa.get("post") != "none" else hexs(TREE_PATTERN))
+            if fa["ore"] != exp_e or fa["ort"] != exp_t:
+                rep.violation("oracle", "partition_or_empty / partition_or_tree do not return the prefix with the postfix (or else the empty glob / the tree glob)",
+                              {"expr": e, "what": "wrappers"}, impl="ore=%s ort=%s" % (fa["ore"][:120], fa["ort"][:120]), spec="%s | %s" % (exp_e[:120], exp_t[:120]))
+            else:
+                rep.stats["wrappers agree with partition"] += 1
         reproduced = a.startswith(b) and b != "err"
         if not reproduced:
             rep.stats["correspondence-broken"] += 1
